@@ -44,6 +44,12 @@ CLAIMED = {
              "Partial for a client writer: ending with the last write is proved for the host and every third client behind the relay; the subsequence chain through the relay is checked by the trace oracle (per-frame value sequences of every peer) on every run.",
         note="Same trusted base as C02. Partial: see text.",
         technique="Lean 4 proof (Sublist chain invariant with ghost logs) + trace-projection correspondence + subsequence oracle", ref="§7 C10"),
+    "C08": dict(
+        text="Machine-checked proof on the crash slice (every deferred closure queued by poll_for_messages as an Except-valued step, application despawns interleaved anywhere in the flush): with the guards the translator reads off the handlers on every run, "
+             "every sequence of steps over every world completes (no panic) and a message about a vanished entity leaves the world unchanged; each guard is shown necessary by a kernel-checked witness. "
+             "Tie = fault enumeration on real Apps: 16 message-kind x receiver-condition cases x both directions x 1-2 clients, panic/no-panic compared with the model under every flush order, then a fresh operation must still replicate.",
+        note="Trusted: Lean kernel + standard axioms; translator's guard scan (regex: get_entity dominance, unwrap count in bin_to_reflect); panics originating inside dependencies on inputs the model treats as opaque are outside the model (only the crate's own call sites).",
+        technique="Lean 4 proof (totality of Except-valued handlers for all step sequences) + fault enumeration on the real crate", ref="§7 C08"),
 }
 PENDING_REASON = "not claimed yet: machinery for this property is still being built (see DESIGN.md §10 build order); no check is registered until its theorems and tie run"
 
